@@ -571,16 +571,20 @@ where
     type Item = &'item T;
 
     fn next(&mut self) -> Option<Self::Item> {
-        if let item @ Some(_) = self.current_section.next() {
-            return item;
-        }
+        loop {
+            if let item @ Some(_) = self.current_section.next() {
+                return item;
+            }
 
-        if let Some(next_section) = self.subsequent_sections.next() {
-            self.current_section = next_section.iter();
-            return self.next();
-        }
+            // Loop instead of recursing: any number of consecutive empty
+            // sections (N = 0) must not consume stack.
 
-        None
+            match self.subsequent_sections.next() {
+                Some(next_section) =>
+                    self.current_section = next_section.iter(),
+                None => return None
+            }
+        }
     }
 
     fn size_hint(&self) -> (usize, Option<usize>) {
